@@ -55,7 +55,7 @@ func genC15(seed uint64, idx int, tier string) interface{} {
 			v.Vals = append(v.Vals, emailVocabVals...)
 		}
 	} else {
-		opt := GenOpts{Fresh: fresh, WantComments: 0.4, WantSpaces: 0.3, WantUnsafe: 0.25, WantCallback: 0.3, WantPatterns: r.Bool(0.3)}
+		opt := GenOpts{Fresh: fresh, WantComments: 0.4, WantSpaces: 0.3, WantUnsafe: 0.25, WantCallback: 0.3, WantPatterns: r.Bool(0.3), ZeroBase: 0.04}
 		pl.Recipe = GenRecipe(r.Fork(1), opt)
 		v = VocabOf(pl.Recipe, fresh)
 	}
